@@ -557,10 +557,32 @@ def replay_solve(ctx, path):
     s = rebuild(case["st"])
     from decwire import undec
     a = case["args"]
-    kw = dict(phase=a["phase"], ta=float(undec(a["ta"])), vtol=float(undec(a["vtol"])), itol=float(undec(a["itol"])),
-              energy=a["energy"], maxiter=a["maxiter"])
-    c = drv_solve.solve_case(s, 0, rail_rep=case.get("hasrail", False), **kw)
     res = Result()
+    if "sweeps" in case:
+        # a sweep-level record of the solver loop (TraceSolver): the call is made again under the tap with the recorded
+        # settings and every run of the loop for the recorded phase is validated sweep by sweep; the table black-box
+        kw = dict(vtol=float(undec(a["vtol"])), itol=float(undec(a["itol"])), maxiter=a["maxiter"])
+        if case.get("phase"):
+            kw["phase"] = case["phase"]
+        tap = solvertap.SolverTap()
+        tap.install()
+        try:
+            c = drv_solve.solve_case(s, 0, **kw)
+            got = [r for r in tap.take() if r["phase"] == case.get("phase", "")]
+        finally:
+            tap.uninstall()
+        for j, run in enumerate(got):
+            run.update(id=10 ** 6 + j, case=0, has_table=False, tv=[], ti=[], has_nref=False, nref=0,
+                       args={"vtol": _cell(kw["vtol"]), "itol": _cell(kw["itol"]), "maxiter": int(kw["maxiter"])})
+            if c["outcome"] == "exc" and j == len(got) - 1 and run["end"] is not None:
+                run["end"] = dict(run["end"], kind="raise", exc=c["exc"])
+        if got:
+            verd, stat, _ = tlc.validate("TraceSolver.tla", "TraceSolver.cfg", [got], ctx.work)
+            res.verd += verd
+    else:
+        kw = dict(phase=a["phase"], ta=float(undec(a["ta"])), vtol=float(undec(a["vtol"])), itol=float(undec(a["itol"])),
+                  energy=a["energy"], maxiter=a["maxiter"])
+        c = drv_solve.solve_case(s, 0, rail_rep=case.get("hasrail", False), **kw)
     validate_cases(ctx, res, [c])
     bad = [v for v in res.verd if v["clause"].startswith(prop + ".")]
     for v in bad:
